@@ -198,8 +198,8 @@ type vC10Query struct {
 	// OPT must come from here
 	hasOpt bool
 	do     bool
-	cookie []byte     // the 8-byte client cookie, nil when none was sent
-	ecs    net.IP     // the client subnet's address, nil when none was sent
+	cookie []byte // the 8-byte client cookie, nil when none was sent
+	ecs    net.IP // the client subnet's address, nil when none was sent
 	ecsLen uint8
 }
 
@@ -843,59 +843,73 @@ func TestVerifC10Stress(t *testing.T) {
 
 		// ---- A: stub handler
 		type ucfg struct {
-			name                   string
-			inline, mixed          bool
-			workers, queue, slabs  int
-			clients, perClient     int
+			name                  string
+			inline, mixed         bool
+			workers, queue, slabs int
+			clients, perClient    int
 		}
-		for ci, uc := range []ucfg{
+		// the four UDP configurations and the TCP one are independent engines on their own
+		// sockets: they run side by side (more contention, less waiting on read deadlines)
+		ucfgs := []ucfg{
 			{"stress-udp-stub", false, false, 2, 2, 12, 24, 48},
 			{"stress-udp-stub-inline", true, false, 2, 1, 10, 24, 48},
 			{"stress-udp-stub-mixed-readers", false, true, 2, 2, 14, 24, 48},
 			{"stress-udp-stub-inline-mixed-readers", true, true, 1, 1, 8, 24, 48},
-		} {
-			sentinel(uc.name)
-			sh := &vC10StressHandler{inline: uc.inline}
-			var h rawHandler = sh
-			if !uc.inline {
-				h = vC10PlainHandler{sh}
-			}
-			var rig *vC10UDPRig
-			if uc.mixed {
-				rig = vC10StartUDPMixed(t, h, uc.workers, uc.queue, uc.slabs)
-			} else {
-				rig = vC10StartUDP(t, h, uc.workers, uc.queue, uc.slabs)
-			}
-			st := &vC10Stats{}
-			var wg sync.WaitGroup
-			for c := 0; c < uc.clients; c++ {
-				wg.Add(1)
-				go func(c int) {
-					defer wg.Done()
-					vC10UDPClient(rand.New(rand.NewSource(base+int64(ci)*131+int64(c))), c, rig.targets, stubKinds, uc.perClient, false, st)
-				}(c)
-			}
-			wg.Wait()
-			rig.stop()
-			emit(uc.name, st, map[string]any{"workers": uc.workers, "queue": uc.queue, "slab_cap": uc.slabs, "clients": uc.clients})
 		}
-		{
-			sentinel("stress-tcp-stub")
+		sentinel("stress-stub-engines")
+		ustats := make([]*vC10Stats, len(ucfgs))
+		var awg sync.WaitGroup
+		for ci, uc := range ucfgs {
+			awg.Add(1)
+			go func(ci int, uc ucfg) {
+				defer awg.Done()
+				sh := &vC10StressHandler{inline: uc.inline}
+				var h rawHandler = sh
+				if !uc.inline {
+					h = vC10PlainHandler{sh}
+				}
+				var rig *vC10UDPRig
+				if uc.mixed {
+					rig = vC10StartUDPMixed(t, h, uc.workers, uc.queue, uc.slabs)
+				} else {
+					rig = vC10StartUDP(t, h, uc.workers, uc.queue, uc.slabs)
+				}
+				st := &vC10Stats{}
+				var wg sync.WaitGroup
+				for c := 0; c < uc.clients; c++ {
+					wg.Add(1)
+					go func(c int) {
+						defer wg.Done()
+						vC10UDPClient(rand.New(rand.NewSource(base+int64(ci)*131+int64(c))), c, rig.targets, stubKinds, uc.perClient, false, st)
+					}(c)
+				}
+				wg.Wait()
+				rig.stop()
+				ustats[ci] = st
+			}(ci, uc)
+		}
+		tcpSt := &vC10Stats{}
+		awg.Add(1)
+		go func() {
+			defer awg.Done()
 			sh := &vC10StressHandler{}
 			addr, stop := vC10StartTCP(t, vC10PlainHandler{sh}, 12, 3, 1)
-			st := &vC10Stats{}
 			var wg sync.WaitGroup
 			for c := 0; c < 16; c++ { // more clients than the connection cap admits
 				wg.Add(1)
 				go func(c int) {
 					defer wg.Done()
-					vC10TCPClient(rand.New(rand.NewSource(base+9000+int64(c))), c, addr, tcpKinds, 4, 24, false, st)
+					vC10TCPClient(rand.New(rand.NewSource(base+9000+int64(c))), c, addr, tcpKinds, 4, 24, false, tcpSt)
 				}(c)
 			}
 			wg.Wait()
 			stop()
-			emit("stress-tcp-stub", st, map[string]any{"conn_cap": 12, "small_slabs": 3, "large_slabs": 1, "clients": 16})
+		}()
+		awg.Wait()
+		for ci, uc := range ucfgs {
+			emit(uc.name, ustats[ci], map[string]any{"workers": uc.workers, "queue": uc.queue, "slab_cap": uc.slabs, "clients": uc.clients})
 		}
+		emit("stress-tcp-stub", tcpSt, map[string]any{"conn_cap": 12, "small_slabs": 3, "large_slabs": 1, "clients": 16})
 
 		// ---- B: the real Server and default chain in front of a stand-in resolver
 		{
